@@ -4,13 +4,17 @@ Line-protocol driver for the C13 correspondence: evaluates the very
 definitions of `SpecVerif.C13` that the theorems of `Props/C13.lean` are about.
 
 Input  (one command per line, tokens separated by single spaces):
-  new <typed 0|1> <selfkeyed 0|1> <eqmode 0|1|2> <item>*   start a case: KeyedList(items)
+  new <typed 0|1|@spec> <selfkeyed 0|1> <eqmode 0|1|2> <item>*   start a case: KeyedList(items)
+      typed = 0 unparameterised, 1 `KeyedList[T, K]` admitting exactly the items of kind 0, or
+      `@<item>,<item>,…/<key>,<key>,…` = `KeyedList[T, K]` with arbitrary type parameters: the items that pass
+      `check_type(item, T)` and the keys that pass `check_type(key, K)` (both decided by the harness's reference
+      checker); the configuration is `typedCfg key okT okK` of `Model/C13.lean`
       eqmode = what Python `==` between two items is in this universe:
         0 identity of the token; 1 payload and kind only (the key is ignored: equal items with
         different keys); 2 key, payload, kind with kinds 0 and 3 identified ((1, p) == (1.0, p))
   <op> <args>*                                  see `parseOp` (an operation on the main container)
   onew <okkinds> <keymode 0|1|2> <item>*        second container (`other`) with its OWN configuration:
-      okkinds = `*` (unparameterised) or the digits of the admissible bad-kinds (`0`, `023`, …);
+      okkinds = `*` (unparameterised), the digits of the admissible bad-kinds (`0`, `023`, …) or an `@` spec as for `new`;
       keymode = its key function on tokens: 0 key field, 1 payload, 2 (key + 1) mod 3
       from here on every output line also shows the second container
   o <op> <args>*                                the same operations on the second container
@@ -113,6 +117,23 @@ def mkCfgO (okkinds mode : String) (selfKeyed : Bool) : Cfg Item Int :=
     okItem := fun x => okkinds == "*" || okkinds.toList.contains (Char.ofNat (48 + x.b))
     asKey := fun x => if selfKeyed then some x.k else none }
 
+/-- `@<item>,…/<key>,…`: the verdicts of the two type checks of `KeyedList[T, K]` as finite sets -/
+def parseSpec (s : String) : Option (List Item × List Int) :=
+  match (String.ofList (s.toList.drop 1)).splitOn "/" with
+  | [a, b] => do
+    let xs ← if a == "" then some [] else (a.splitOn ",").mapM parseItem
+    let ks ← if b == "" then some [] else (b.splitOn ",").mapM String.toInt?
+    pure (xs, ks)
+  | _ => none
+
+/-- configuration of a container from its admissibility token and key mode -/
+def cfgOf (spec mode : String) (selfKeyed : Bool) : Option (Cfg Item Int) :=
+  if spec.toList.head? == some '@' then do
+    let (xs, ks) ← parseSpec spec
+    pure (typedCfg (keyOf mode) (fun x => xs.contains x) (fun k => ks.contains k)
+      (fun x => if selfKeyed then some x.k else none))
+  else some (mkCfgO spec mode selfKeyed)
+
 def parseSide (s : String) : Option Side :=
   if s == "m" then some .main else if s == "o" then some .other else none
 
@@ -146,19 +167,20 @@ def showSt (st : St) : String :=
 def handle (st : St) (line : String) : St × String :=
   match (line.trimAscii.toString.splitOn " ").filter (· ≠ "") with
   | "new" :: typed :: selfk :: eqm :: items =>
-    match parseItems items with
-    | none => (st, "bad-op")
-    | some xs =>
-      let cfg := mkCfg (typed == "1") (selfk == "1")
+    match parseItems items, (if typed == "0" || typed == "1" then some (mkCfg (typed == "1") (selfk == "1"))
+        else cfgOf typed "0" (selfk == "1")) with
+    | none, _ => (st, "bad-op")
+    | _, none => (st, "bad-op")
+    | some xs, some cfg =>
       let st' : St := { cfg := ⟨cfg, cfg⟩, selfKeyed := selfk == "1", eqv := mkEqv eqm, pair := ⟨KL.empty, KL.empty⟩, hasOther := false }
       match construct cfg xs with
       | .ok l => let st'' := { st' with pair := ⟨l, KL.empty⟩ }; (st'', "ok ;; " ++ showSt st'')
       | .error e => (st', "err " ++ e.name ++ " ;; " ++ showSt st')
   | "onew" :: okkinds :: mode :: items =>
-    match parseItems items with
-    | none => (st, "bad-op")
-    | some xs =>
-      let cfgO := mkCfgO okkinds mode st.selfKeyed
+    match parseItems items, cfgOf okkinds mode st.selfKeyed with
+    | none, _ => (st, "bad-op")
+    | _, none => (st, "bad-op")
+    | some xs, some cfgO =>
       let st' : St := { st with cfg := ⟨st.cfg.main, cfgO⟩, pair := ⟨st.pair.main, KL.empty⟩, hasOther := true }
       match construct cfgO xs with
       | .ok l => let st'' := { st' with pair := ⟨st.pair.main, l⟩ }; (st'', "ok ;; " ++ showSt st'')
